@@ -35,7 +35,8 @@ const (
 	pvNoCaller
 )
 
-var c06Methods = []string{"Lookup", "AliasedLookup", "LookupString", "LookupBindings", "IsMaterialized", "definitions[]", "aliases[]", "Alias", "Define", "LookupDataType", "DefineNew"}
+var c06Methods = []string{"Lookup", "AliasedLookup", "LookupString", "LookupBindings", "IsMaterialized", "definitions[]", "aliases[]", "Alias", "Define", "LookupDataType", "DefineNew",
+	"ParameterLookup", "AliasParameter", "parameterAliases[]"}
 
 type c06Fn struct {
 	name   string
@@ -374,6 +375,7 @@ type c06Site struct {
 	fallback bool // AliasedLookup of the same expression as a Lookup earlier in the same function
 	internal bool // inside a method of Scope
 	fresh    bool // Alias: the binding argument was produced by DefineNew/Define in the same function
+	inParam  bool // the access is inside a `case *cypher.Parameter:` clause
 	text     string
 }
 
@@ -439,6 +441,25 @@ func c06Facts(repo string, w *strings.Builder) error {
 				pos  token.Pos
 			}
 			var lookups []lk
+			var paramCases [][2]token.Pos // extents of `case *cypher.Parameter:` clauses
+			ast.Inspect(fn.decl.Body, func(node ast.Node) bool {
+				if cc, ok := node.(*ast.CaseClause); ok {
+					for _, e := range cc.List {
+						if exprText(e) == "cypher.Parameter" {
+							paramCases = append(paramCases, [2]token.Pos{cc.Pos(), cc.End()})
+						}
+					}
+				}
+				return true
+			})
+			inParamCase := func(p token.Pos) bool {
+				for _, r := range paramCases {
+					if r[0] <= p && p < r[1] {
+						return true
+					}
+				}
+				return false
+			}
 			defineResults := map[string]bool{} // identifiers bound to a DefineNew/Define result in this function
 			ast.Inspect(fn.decl.Body, func(node ast.Node) bool {
 				if as, ok := node.(*ast.AssignStmt); ok && len(as.Rhs) == 1 {
@@ -464,11 +485,11 @@ func c06Facts(repo string, w *strings.Builder) error {
 						return true
 					}
 					pos := fset.Position(x.Pos())
-					site := c06Site{file: fn.file, line: pos.Line, fn: fn.name, method: mi, internal: fn.recv == "Scope", text: exprText(x.Args[0])}
+					site := c06Site{file: fn.file, line: pos.Line, fn: fn.name, method: mi, internal: fn.recv == "Scope", text: exprText(x.Args[0]), inParam: inParamCase(x.Pos())}
 					switch sel.Sel.Name {
 					case "DefineNew":
 						return true
-					case "Alias":
+					case "Alias", "AliasParameter":
 						site.prov = ctx.classify(x.Args[0], fn, x.Pos(), 0)
 						if len(x.Args) > 1 {
 							if id, ok := x.Args[1].(*ast.Ident); ok && defineResults[id.Name] {
@@ -491,7 +512,7 @@ func c06Facts(repo string, w *strings.Builder) error {
 					sites = append(sites, site)
 				case *ast.IndexExpr:
 					sel, ok := x.X.(*ast.SelectorExpr)
-					if !ok || (sel.Sel.Name != "definitions" && sel.Sel.Name != "aliases") {
+					if !ok || (sel.Sel.Name != "definitions" && sel.Sel.Name != "aliases" && sel.Sel.Name != "parameterAliases") {
 						return true
 					}
 					pos := fset.Position(x.Pos())
@@ -515,14 +536,14 @@ func c06Facts(repo string, w *strings.Builder) error {
 	w.WriteString("namespace Dawgs.Generated.C06Sites\n\n")
 	w.WriteString("/-- method codes -/\ndef methodNames : List String := " + leanStrList(c06Methods) + "\n")
 	w.WriteString("/-- provenance bits: 1 user, 2 binding, 4 set, 8 operand, 16 const, 32 unknown, 64 no-caller -/\n")
-	w.WriteString("structure Site where\n  file : String\n  line : Nat\n  fn : String\n  method : Nat\n  prov : Nat\n  fallback : Bool\n  internal : Bool\n  fresh : Bool\n  arg : String\nderiving Repr, DecidableEq\n\n")
+	w.WriteString("structure Site where\n  file : String\n  line : Nat\n  fn : String\n  method : Nat\n  prov : Nat\n  fallback : Bool\n  internal : Bool\n  fresh : Bool\n  inParamCase : Bool\n  arg : String\nderiving Repr, DecidableEq\n\n")
 	w.WriteString("def sites : List Site := [\n")
 	for i, s := range sites {
 		sep := ","
 		if i == len(sites)-1 {
 			sep = ""
 		}
-		fmt.Fprintf(w, "  ⟨%s, %d, %s, %d, %d, %v, %v, %v, %s⟩%s\n", leanStr(s.file), s.line, leanStr(s.fn), s.method, s.prov, s.fallback, s.internal, s.fresh, leanStr(s.text), sep)
+		fmt.Fprintf(w, "  ⟨%s, %d, %s, %d, %d, %v, %v, %v, %v, %s⟩%s\n", leanStr(s.file), s.line, leanStr(s.fn), s.method, s.prov, s.fallback, s.internal, s.fresh, s.inParam, leanStr(s.text), sep)
 	}
 	w.WriteString("]\n\n")
 	if err := c06Generator(repo, ctx, w); err != nil {
